@@ -32,11 +32,24 @@ def pe_file(rng):
     struct.pack_into("<H", hdr, 0x98, 0x10B)
     sec = 0x98 + 0xE0
     end = 0x200
+    # raw-data layout variants: ascending (the usual one), raw data stored in the REVERSE order of the virtual addresses, a trailing section without raw data
+    # (.bss: SizeOfRawData = PointerToRawData = 0).  The file ends at the largest PointerToRawData + SizeOfRawData over ALL sections.
+    sizes = [rng.choice([0x200, 0x400]) for _ in range(n)]
+    layout = rng.choice(["ascending", "reversed", "bss"]) if n >= 2 else "ascending"
+    ptrs = []
     for i in range(n):
-        size = rng.choice([0x200, 0x400])
+        ptrs.append(end)
+        end += sizes[i]
+    if layout == "reversed":
+        ptrs = ptrs[::-1]
+        sizes = sizes[::-1]
+    for i in range(n):
+        raw_size, raw_ptr = sizes[i], ptrs[i]
+        if layout == "bss" and i == n - 1:
+            end -= sizes[i] if ptrs[i] + sizes[i] == end else 0
+            raw_size, raw_ptr = 0, 0
         hdr[sec:sec + 8] = (b".s%d" % i).ljust(8, b"\0")
-        struct.pack_into("<IIII", hdr, sec + 8, size, 0x1000 * (i + 1), size, end)
-        end += size
+        struct.pack_into("<IIII", hdr, sec + 8, max(raw_size, 0x200), 0x1000 * (i + 1), raw_size, raw_ptr)
         sec += 40
     return bytes(hdr) + bytes(rng.randrange(1, 255) for _ in range(end - 0x200))
 
@@ -48,7 +61,7 @@ def instances(rng):
     for _ in range(6):
         out.append(("ip", quad(), "network.ip", None))
     labels = [b"example", b"evil-site", b"cdn77", b"mail", b"files", b"my-host", b"www2", b"portal"]
-    tlds = [b"com", b"org", b"net", b"ru", b"de", b"co.uk", b"biz"]
+    tlds = [b"com", b"org", b"net", b"ru", b"de", b"co.uk", b"biz", b"international", b"travelersinsurance", b"photography", b"xn--p1ai"]    # incl. the longest registered names
     for _ in range(6):
         d = b".".join(rng.choice(labels) for _ in range(rng.randint(1, 2))) + b"." + rng.choice(tlds)
         if len(d) >= 7:
